@@ -60,7 +60,7 @@ def gen():
 
     @st.composite
     def g(draw):
-        spec = draw(mg.spec_strategy(max_vars=6, roles=("param", "obs", "plain", "unflagged", "both")))
+        spec = draw(mg.spec_strategy(max_vars=6, roles=("param", "obs", "plain", "unflagged", "both"), allow_weak=True))
         nv = len(spec["vars"])
         ex = {}
         if draw(st.integers(0, 3)) == 0:
@@ -71,13 +71,14 @@ def gen():
         for which in ("log_lik", "log_prior", "log_prob"):
             if draw(st.integers(0, 5)) == 0:
                 ex["user_" + which] = {"of": draw(st.integers(0, nv - 1)), "vector": draw(st.booleans())}
-        ex["auto"] = [i for i, d in enumerate(spec["vars"]) if d["family"] and d["role"] == "param" and d["support"] in ("pos", "unit", "bounded")
+        ex["auto"] = [i for i, d in enumerate(spec["vars"]) if d["family"] and d["role"] == "param" and d["support"] in ("pos", "unit", "bounded") and not d.get("weak_of")
                       and draw(st.integers(0, 2)) == 0 and i != ex.get("bare", {}).get("at")]   # (a bare Dist pins the old value node)
         spec["extras"] = ex
         n_re = draw(st.integers(1, 3))
         re = [[[draw(st.floats(-2, 2, width=32)) for _ in d["z"]] for d in spec["vars"]] for _ in range(n_re)]
         flip = [draw(st.booleans()) for _ in spec["vars"]]
-        return {"spec": spec, "reassign": re, "flip": flip}
+        return {"spec": spec, "reassign": re, "flip": flip, "modes": [draw(st.sampled_from(["auto", "auto", "targeted"])) for _ in re],
+                "pop_rebuild": draw(st.booleans())}
 
     return g()
 
@@ -246,17 +247,48 @@ def oracle(case):
         lp, ll, lpr = (float(np.asarray(getattr(model, w))) for w in ("log_prob", "log_lik", "log_prior"))
         require(abs(lp - (ll + lpr)) <= 2 * mg.tol(tot["abs"], tot["n_terms"], precise(spec)), "log_prob-not-lik-plus-prior", lambda: f"{lp} vs {ll}+{lpr}; {det()}")
     # re-assignments
-    for zs in case["reassign"]:
-        vals = mg.values_from_z(spec, zs)
+    def assign_all(vals, target_model=None):
         for i, (var, v) in enumerate(zip(lvars, vals)):
+            if spec["vars"][i].get("weak_of"):
+                continue
             if i in bij:
                 t, _ = bij_inv_and_logjac(bij[i], v, spec["vars"][i])
                 model.vars[spec["vars"][i]["name"] + "_transformed"].value = np.asarray(t, dtype=dt)
             else:
                 var.value = np.asarray(v, dtype=dt)
+
+    for zs, mode in zip(case["reassign"], case.get("modes") or ["auto"] * len(case["reassign"])):
+        vals = mg.values_from_z(spec, zs)
+        if mode == "targeted":
+            # auto-update off, assign everything, then a targeted update of the log-probability only: it must already be the joint density
+            model.auto_update = False
+            assign_all(vals)
+            model.update("_model_log_prob")
+            values_t = [np.asarray(np.asarray(v, dtype=dt), dtype=np.float64) for v in vals]
+            if not bij and not user:
+                tot_t, _, _ = expected(spec, values_t, mv, bij)
+                got_t = float(np.asarray(model.log_prob))
+                tt = mg.tol(tot_t["abs"], tot_t["n_terms"], precise(spec))
+                require(abs(got_t - tot_t["log_prob"]) <= tt, "targeted-update:log_prob-not-sum-of-log-densities",
+                        lambda: f"after update('_model_log_prob'): {got_t} oracle {tot_t['log_prob']} (tol {tt:.2e}); {det()}")
+            model.auto_update = True
+        else:
+            assign_all(vals)
         model.update()
         values = [np.asarray(lvars[i].value, dtype=np.float64) if i in bij else np.asarray(np.asarray(v, dtype=dt), dtype=np.float64) for i, v in enumerate(vals)]
         compare(model, lvars, spec, values, mv, "after-assignment:", det, bij)
+    # nodes that leave a model keep their cached log-densities: after pop, new values and a rebuild the totals must be those of the new values
+    if case.get("pop_rebuild") and not bij and not user and "bare" not in ex and "mvnd" not in ex:
+        nodes, vars_ = model.pop_nodes_and_vars()
+        zs2 = [[-0.7 * z for z in zz] for zz in case["reassign"][-1]]
+        vals2 = mg.values_from_z(spec, zs2)
+        for i, (var, v) in enumerate(zip(lvars, vals2)):
+            if not spec["vars"][i].get("weak_of"):
+                var.value = np.asarray(v, dtype=dt)
+        model = lsl.GraphBuilder(to_float32=not x64()).add(*vars_.values()).build_model()
+        values = [np.asarray(np.asarray(v, dtype=dt), dtype=np.float64) for v in vals2]
+        compare(model, lvars, spec, values, mv, "after-pop-and-rebuild:", det, bij)
+        case = dict(case, reassign=case["reassign"][:-1] + [zs2])
     # metamorphic: any other per_obs assignment gives the same totals
     base = {w: np.asarray(getattr(model, w), dtype=np.float64) for w in ("log_prob", "log_lik", "log_prior")}
     if any(case["flip"]) and not bij:
